@@ -15,7 +15,8 @@ IMPORTS = "From Verif Require Import C01.Model C01.Spec C01.Corr."
 CASE_TYPE = "C01.Corr.case"
 RUNNER = "C01.Corr.run"
 FINDING_CLASSES = {}
-RULE = ("one case = one Saml2Client (one configuration) consuming a sequence of messages; per message: identity or not.  "
+RULE = ("one case = one Saml2Client (one configuration) consuming a sequence of messages (each a Response with a list of "
+        "assertions); per message: identity or not.  "
         "(A) single-message truth table: 3 options x {unset, True, False, 'true'} (64) x Response signature {absent, "
         "valid, corrupted, untrusted key} x assertion signature (same 4) x {plain, encrypted} x binding {POST, Redirect, "
         "SOAP, PAOS} = 8192 cells; quick = all 1024 POST/plain cells + 1000 seeded cells of the rest, thorough = all 8192.  "
@@ -48,9 +49,23 @@ RULE = ("one case = one Saml2Client (one configuration) consuming a sequence of 
         "defaults + 2 rotating through all 27 (unset/True/False)^3 + 1 with an unreadable word; spellings taken in turn), "
         "thorough = every surface with and without service/idp x all 27 x 2 spellings + 2 unreadable; per client a sequence of the 4 probes {unsigned, Response signed, "
         "assertion signed, both} (plain/encrypted, bindings drawn) + 2 random messages.  "
+        "(G) the LIST of assertions of a Response (round 5): every document order of plain / encrypted assertions up to 4 "
+        "(thorough 5), i.e. also none, several plain and several encrypted ones (parse_assertion admits exactly one plain or "
+        "exactly one encrypted assertion; xmlsec1 and the stand-in open ONE EncryptedData per --decrypt call, so a Response "
+        "with n EncryptedAssertions takes n decryption rounds); for every admitted arrangement the baseline (all validly "
+        "signed by the IdP) and one assertion at a time, at EVERY position, without signature / with SignatureValue edit / "
+        "signed by an untrusted key, and (in turn; thorough: all) DigestValue / NameID / attribute edit, untrusted key "
+        "shipping its certificate, rotated key, encryption-only key, another member's key; a pair of deviations; one "
+        "assertion naming another Issuer (other member, entity without metadata, none); the other arrangements with the "
+        "baseline; each under one of 8 option settings in turn (thorough: all 8 up to 3 assertions) with a Response "
+        "signature that mostly satisfies it, bindings drawn; + random lists (quick 60, thorough 1000) over the full product "
+        "incl. only_use_keys_in_metadata; run as sequences of 4 messages on one SP.  "
         "Signature states are real: RSA through the xmlsec1 stand-in, corruption by byte edits.  "
         "non-trivial = distinct (configuration, abstract message sequence) other than (defaults, Valid, Absent, plain, POST)")
-TRUSTED = ["xmlsec1 stand-in (sign/verify/encrypt/decrypt)", "renderer harness/render.py",
+TRUSTED = ["xmlsec1 stand-in (sign/verify/encrypt/decrypt; --decrypt opens the first EncryptedData only, like xmlsec1)",
+           "renderer harness/render.py",
+           "harness/c01.py:build_multi / encrypt_child / corrupt_assertion (Responses with several assertions: each assertion "
+           "signed, edited and encrypted on its own through the stand-in; the abstract flags of a case say what was done)",
            "translator harness/c01.py:regenerate_tables (AST of client_base.Base.__init__ attribute_defaults and of "
            "config.Config.__init__ only_use_keys_in_metadata)",
            "memo of saml2.cryptography.asymmetric.load_pem_private_key by PEM bytes (fresh SP per sequence; as the stand-in does)",
@@ -76,7 +91,12 @@ ASSUMPTIONS = ["everything but the signatures and the Issuer elements is valid (
                "BAD_TEXTS) in service/sp of the dict and through Config.setattr('sp', ..) on the loaded object; NOT generated: "
                "non-ASCII texts (Unicode blanks / case mapping are not modelled), values that are neither bool nor str, options "
                "assigned after the client was built; only_use_keys_in_metadata keeps the spellings of round 1 (it is not read "
-               "by Base.__init__)"]
+               "by Base.__init__)",
+               "several assertions in one Response (round 5): all assertions speak of the same subject and are otherwise "
+               "valid, IDs are distinct (a-1, a-2, ..), every EncryptedAssertion holds one EncryptedData with its own Id, "
+               "encrypted for the receiver, signatures in the standard form; NOT generated: an EncryptedAssertion for "
+               "another recipient, EncryptedID inside an assertion, assertions inside saml:Advice (C04), duplicate IDs, "
+               "more than 5 assertions"]
 
 OPTV = ["unset", True, False, "true"]
 SIGST = ["Absent", "Valid", "Corrupt", "Untrusted"]
@@ -680,7 +700,140 @@ def generate(ctx):
     cases = cases + gen_shapes(ctx, rng2) + gen_random_shapes(ctx, rng2)
     # (F) likewise
     rng3 = random.Random(rng.randrange(1 << 30))
-    return cases + gen_surfaces(ctx, rng3)
+    cases = cases + gen_surfaces(ctx, rng3)
+    # (G) likewise; its messages are the dearest (several signatures and decryption rounds each): they go first so
+    # that the fork pool of the driver does not end on them
+    rng4 = random.Random(rng.randrange(1 << 30))
+    return gen_multi(ctx, rng4) + cases
+
+
+# ---------------------------------------------------------------------------- (G) several assertions in one Response
+# step = {"rw": WHO, "rs": sig|None, "asl": [{"aw": WHO, "as": sig|None, "enc": bool}, ...], "b", "seed"}: the Response
+# carries the assertions of "asl" in document order (round 5); such steps have no "aw" / "as" / "enc" of their own
+def arrangements(max_total):
+    """Every document order of p plain ('p') and e encrypted ('e') assertions, 0 <= p + e <= max_total."""
+    import itertools
+
+    out = [()]
+    for n in range(1, max_total + 1):
+        out += list(itertools.product("pe", repeat=n))
+    return out
+
+
+def asr(kind, state="V", aw="idp"):
+    g = {"A": None, "V": sig("idp"), "C": sig("idp", c="sigvalue"), "D": sig("idp", c="digest"), "N": sig("idp", c="nameid"),
+         "T": sig("idp", c="attr"), "U": sig("attacker"), "S": sig("attacker", "signer"), "2": sig("idp2"), "E": sig("idpenc"),
+         "O": sig("other")}[state]
+    return {"aw": aw, "as": g, "enc": kind == "e"}
+
+
+def mstep(rw, rs, asl, b="POST", seed=0):
+    return {"rw": rw, "rs": rs, "asl": asl, "b": b, "seed": seed}
+
+
+MULTI_CFGS = [(False, True, "unset"), (False, False, True), ("unset", "unset", "unset"), (False, False, False),
+              (True, True, False), (False, "true", True), (True, False, True), (False, "unset", "unset")]
+
+
+def admitted(a):
+    """parse_assertion's number rule: exactly one plain or exactly one encrypted assertion."""
+    return a.count("p") == 1 or a.count("e") == 1
+
+
+def gen_multi(ctx, rng):
+    """(G) the list of assertions of a Response.  Arrangements = every document order of plain / encrypted assertions
+    up to 4 (thorough 5).  For the arrangements the receiver admits: the baseline (every assertion validly signed by
+    the IdP) and ONE assertion at a time deviating, at every position: no signature / SignatureValue edit / untrusted
+    key, and (in turn; thorough: all) DigestValue / NameID / attribute edit, untrusted key shipping its certificate,
+    rotated key, encryption-only key, another member's key; a pair of deviations; one assertion naming another
+    Issuer (other member, entity without metadata, none).  For the others (no assertion, several plain AND several
+    encrypted ones): the baseline.  Each under an option setting taken in turn (8) with a Response signature that
+    mostly satisfies it; then random lists over the full product."""
+    arr = arrangements(5 if ctx.thorough else 4)
+    main, more = ["A", "C", "U"], ["D", "N", "T", "S", "2", "E", "O"]
+    cells = []                      # (opts, only, step)
+    n = 0
+
+    def add(a, states, opts=None, only="unset", rw="idp", whos=None):
+        nonlocal n
+        n += 1
+        picks = [opts] if opts else (MULTI_CFGS if ctx.thorough and len(a) <= 3 else [MULTI_CFGS[n % len(MULTI_CFGS)]])
+        for o in picks:
+            r = rng.random()
+            rs = sig("idp") if (o[0] in (True, "unset") and r < 0.85) or r < 0.3 else None
+            if rs and rng.random() < 0.06:
+                rs = sig(rng.choice(["idp", "attacker"]), c=rng.choice([None, "sigvalue", "digest", "envelope"]))
+            asl = [asr(k, st_, (whos or {}).get(i, "idp")) for i, (k, st_) in enumerate(zip(a, states))]
+            cells.append((o, only, mstep(rw, rs, asl, rng.choice(["POST"] * 5 + ["Redirect", "SOAP"]), rng.randrange(1 << 30))))
+
+    for a in arr:
+        base = ["V"] * len(a)
+        if not admitted(a):
+            add(a, base)
+            continue
+        add(a, base, MULTI_CFGS[0])
+        add(a, base, MULTI_CFGS[2 if len(a) % 2 else 1])
+        for i in range(len(a)):
+            if ctx.thorough:
+                devs = main + more
+            elif len(a) <= 3:
+                devs = main + [more[(n + i) % len(more)]]
+            else:
+                devs = [(main + more)[(n + i) % 10]]
+            for d in devs:
+                t = list(base)
+                t[i] = d
+                # a deviation shows best where everything else satisfies the options: assertions demanded / either-or
+                add(a, t, None if ctx.thorough else MULTI_CFGS[(n + i) % 2] if d != "A" and n % 3 else None)
+        # two deviations (what one check stops, the other may not)
+        for _ in range(len(a) if ctx.thorough else 1):
+            if len(a) >= 2:
+                i, k = rng.sample(range(len(a)), 2)
+                t = list(base)
+                t[i], t[k] = rng.choice(main + more), rng.choice(main + more)
+                add(a, t)
+        # one assertion of the list names another member / an entity without metadata / nobody
+        if 2 <= len(a) <= (4 if ctx.thorough else 3):
+            for i in range(len(a)):
+                for w in (("other", "unknown", "none") if ctx.thorough else (("other", "unknown", "none")[(n + i) % 3],)):
+                    t = list(base)
+                    t[i] = "O" if w == "other" else rng.choice(["V", "S", "A"])
+                    add(a, t, None, False if n % 3 == 0 else "unset", rng.choice(["idp", "idp", "none", w]), {i: w})
+    # random lists over the full product
+    for _ in range(1000 if ctx.thorough else 60):
+        k = rng.choice([0, 1, 2, 2, 3, 3, 3, 4, 4, 5])
+        asl = []
+        for _i in range(k):
+            aw = "idp" if rng.random() < 0.9 else rng.choice(WHO)
+            g = random_sig(rng, HOW_A, False, False) if rng.random() < 0.3 else (sig("idp") if rng.random() < 0.85 else None)
+            asl.append({"aw": aw, "as": g, "enc": rng.random() < 0.5})
+        rw = "idp" if rng.random() < 0.85 else rng.choice(WHO)
+        rs = random_sig(rng, ["sigvalue", "digest", "envelope"], True, False) if rng.random() < 0.3 else (sig("idp") if rng.random() < 0.6 else None)
+        opts = (rng.choice(OPTV), rng.choice(OPTV), rng.choice(OPTV))
+        only = rng.choice(["unset", "unset", True, False, False, "true"])
+        cells.append((opts, only, mstep(rw, rs, asl, rng.choice(["POST"] * 6 + ["Redirect", "SOAP", "PAOS"]), rng.randrange(1 << 30))))
+    by_cfg = {}
+    for opts, only, st_ in cells:
+        by_cfg.setdefault((opts, only) if (opts in MULTI_CFGS and only in ("unset", False)) else "other", []).append((opts, only, st_))
+    seqs, singles = [], []
+    for key, part in sorted(by_cfg.items(), key=lambda kv: repr(kv[0])):
+        rng.shuffle(part)
+        if key == "other":
+            # random settings: a sequence needs ONE setting, so these are sequences of one message
+            for opts, only, st_ in part:
+                singles.append(seq("multi", {"wr": opts[0], "wa": opts[1], "wor": opts[2], "only": only}, [st_]))
+            continue
+        cfg = {"wr": key[0][0], "wa": key[0][1], "wor": key[0][2], "only": key[1]}
+        for i in range(0, len(part), 4):
+            seqs.append(seq("multi", cfg, [st_ for _o, _y, st_ in part[i:i + 4]]))
+    # short sequences, the single messages dealt in between: the driver hands the cases to its workers eight at a time
+    cases = []
+    while seqs or singles:
+        if seqs:
+            cases.append(seqs.pop())
+        if singles:
+            cases.append(singles.pop())
+    return cases
 
 
 # ---------------------------------------------------------------------------- (F) how the options reach the client
@@ -1014,9 +1167,113 @@ def build_shaped(st, memo):
     return xml
 
 
+# ---- several assertions in one Response (round 5)
+ENC_TEMPLATE_N = (
+    '<xenc:EncryptedData xmlns:xenc="http://www.w3.org/2001/04/xmlenc#" xmlns:ds="http://www.w3.org/2000/09/xmldsig#" '
+    'Id="ED_%(n)d" Type="http://www.w3.org/2001/04/xmlenc#Element">'
+    '<xenc:EncryptionMethod Algorithm="http://www.w3.org/2001/04/xmlenc#aes128-cbc"/>'
+    '<ds:KeyInfo><xenc:EncryptedKey Id="EK_%(n)d">'
+    '<xenc:EncryptionMethod Algorithm="http://www.w3.org/2001/04/xmlenc#rsa-oaep-mgf1p"/>'
+    "<xenc:CipherData><xenc:CipherValue/></xenc:CipherData></xenc:EncryptedKey></ds:KeyInfo>"
+    "<xenc:CipherData><xenc:CipherValue/></xenc:CipherData></xenc:EncryptedData>"
+)
+_SAML_NS = "{urn:oasis:names:tc:SAML:2.0:assertion}"
+
+
+def encrypt_child(xml, n, certname="sp"):
+    """Local helper (render.encrypt_assertion_in_response always takes the FIRST plain assertion): wrap the n-th
+    Assertion / EncryptedAssertion child of the Response (a plain Assertion) in saml:EncryptedAssertion and encrypt it
+    for `certname` through the stand-in (RSA-OAEP + AES-128-CBC); every EncryptedData gets its own Id."""
+    import tempfile
+    import xml.etree.ElementTree as ET
+    from harness import fixtures
+
+    m = env.standin()
+    root = m._parse(xml.encode("utf-8") if isinstance(xml, str) else xml)
+    kids = [i for i, ch in enumerate(list(root)) if ch.tag in (_SAML_NS + "Assertion", _SAML_NS + "EncryptedAssertion")]
+    idx = kids[n]
+    a = list(root)[idx]
+    assert a.tag == _SAML_NS + "Assertion"
+    root.remove(a)
+    wrap = ET.Element(_SAML_NS + "EncryptedAssertion")
+    wrap.append(a)
+    wrap.tail = a.tail
+    a.tail = None
+    root.insert(idx, wrap)
+    with tempfile.NamedTemporaryFile(suffix=".xml", delete=False) as f:
+        f.write(ET.tostring(root, encoding="utf-8"))
+        path = f.name
+    try:
+        # the only EncryptedAssertion that still holds an Assertion is the one just made
+        out, _, _ = m.do_encrypt({"xml_data": path, "node_xpath": render.ASSERT_XPATH,
+                                  "pubkey_cert": fixtures.cert_path(certname)}, (ENC_TEMPLATE_N % {"n": n + 1}).encode())
+    finally:
+        os.unlink(path)
+    return out.decode("utf-8")
+
+
+def _assertion_span(xml, aid):
+    m = re.search(r"<(\w+):Assertion\b[^>]*\bID=\"%s\"" % re.escape(aid), xml)
+    end = xml.index("</%s:Assertion>" % m.group(1), m.start()) + len("</%s:Assertion>" % m.group(1))
+    return m.start(), end
+
+
+def corrupt_assertion(xml, aid, how):
+    """`corrupt`, confined to the assertion with that ID."""
+    i, j = _assertion_span(xml, aid)
+    return xml[:i] + corrupt(xml[i:j], how) + xml[j:]
+
+
+def build_multi(st, memo):
+    """Message of a step whose Response carries a LIST of assertions (st["asl"], document order): assertion i has the
+    ID a-<i>, its own Issuer, signature (key, KeyInfo, corruption) and travels plain or as EncryptedAssertion.  All
+    assertions speak of the same subject; every EncryptedAssertion holds one EncryptedData (the stand-in, like xmlsec1,
+    opens ONE EncryptedData - the first in document order - per --decrypt call)."""
+    r = random.Random(st["seed"])
+    resp = spaccept.good_response(issuer=WHO_ID[st["rw"]], status=(render.STATUS_SUCCESS, None, "ok"))
+    if st["b"] == "Redirect":
+        resp["destination"] = world.SP_ACS_REDIRECT
+    axmls = []
+    for i, x in enumerate(st["asl"]):
+        aid = "a-%d" % (i + 1)
+        attrs = [("urn:oid:0.9.2342.19200300.100.1.3", render.NF_URI, "mail", ["a@example.org"])] + random_attrs(r)
+        a = spaccept.good_assertion(id=aid, attributes=attrs, issuer=WHO_ID[x["aw"]] or "")
+        if x["as"]:
+            a["sig_template"] = render.signature_template(aid, _keyinfo(x["as"]))
+        axml = render.assertion(a)
+        if x["aw"] == "none":
+            assert axml.count("<saml:Issuer></saml:Issuer>") == 1
+            axml = axml.replace("<saml:Issuer></saml:Issuer>", "", 1)
+        axmls.append(axml)
+    resp["assertions_xml"] = axmls
+    rs = st["rs"]
+    if rs:
+        resp["sig_template"] = render.signature_template(resp["id"], _keyinfo(rs))
+    xml = render.response(resp)
+    for i, x in enumerate(st["asl"]):
+        if x["as"]:
+            xml = render.sign_xml(xml, x["as"]["k"], render.A_ELEM, "a-%d" % (i + 1))
+    for i, x in enumerate(st["asl"]):
+        if x["as"] and x["as"]["c"]:
+            xml = corrupt_assertion(xml, "a-%d" % (i + 1), x["as"]["c"])
+    for i, x in enumerate(st["asl"]):
+        if x["enc"]:
+            key = ("enc-n", i, xml)
+            if key not in memo:
+                memo[key] = encrypt_child(xml, i)
+            xml = memo[key]
+    if rs:
+        xml = render.sign_xml(xml, rs["k"], render.R_ELEM, resp["id"])
+        if rs["c"]:
+            xml = corrupt(xml, rs["c"])
+    return xml
+
+
 def build_step(st, memo):
     """Message of one step.  Everything but the encryption is deterministic, and the encryption is memoised
     per sequence: steps that share seed and structure share IDs, ciphertext and ds:Signature elements."""
+    if "asl" in st:
+        return build_multi(st, memo)
     if (st["rs"] and st["rs"].get("sh")) or (st["as"] and st["as"].get("sh")):
         return build_shaped(st, memo)
     r = random.Random(st["seed"])
@@ -1194,6 +1451,9 @@ def cq_sig(g):
 
 
 def cq_step(st, o):
+    if "asl" in st:
+        return "stm %s %s [%s] %s %s" % (CQ_WHO[st["rw"]], cq_sig(st["rs"]), "; ".join(
+            "asr %s %s %s" % (CQ_WHO[x["aw"]], cq_sig(x["as"]), cq(bool(x["enc"]))) for x in st["asl"]), st["b"], cq(bool(o["identity"])))
     if st.get("legacy"):
         return "st WIdp WIdp s%s s%s %s %s %s" % (st["rs"], st["as"], cq(bool(st["enc"])), st["b"], cq(bool(o["identity"])))
     return "st %s %s %s %s %s %s %s" % (CQ_WHO[st["rw"]], CQ_WHO[st["aw"]], cq_sig(st["rs"]), cq_sig(st["as"]),
@@ -1244,6 +1504,8 @@ def abstract_step(st):
         if not sh:
             return (g["k"], g["ki"], bool(g["c"]))
         return (g["k"], g["ki"], bool(g["c"]), tuple(sh["refs"]), sh["c14n"], tuple(sh["tr"]), sh["obj"], sh["x"])
+    if "asl" in st:
+        return (st["rw"], ab(st["rs"]), [(x["aw"], ab(x["as"]), x["enc"]) for x in st["asl"]], st["b"])
     return (st["rw"], st["aw"], ab(st["rs"]), ab(st["as"]), st["enc"], st["b"])
 
 
@@ -1263,7 +1525,8 @@ def nontrivial(case, obs):
 def histogram(cases, observed):
     h = {"by_tag": {}, "messages": 0, "identity": 0, "rejected": 0, "exceptions": {}, "by_binding": {}, "encrypted": 0,
          "sequence_length": {}, "corruptions": {}, "issuer_pairs": {}, "signing_keys": {}, "shaped_signatures": 0,
-         "reference_targets": {}, "second_signature": {}, "shapes_accepted": 0, "surfaces": {}, "options_written": {}}
+         "reference_targets": {}, "second_signature": {}, "shapes_accepted": 0, "surfaces": {}, "options_written": {},
+         "assertion_lists": {}, "assertion_lists_accepted": {}, "messages_with_several_assertions": 0}
     for c, o in zip(cases, observed):
         if c.get("surf"):
             sf = c["surf"]
@@ -1279,6 +1542,22 @@ def histogram(cases, observed):
         for st, so in zip(c["steps"], o["steps"]):
             h["messages"] += 1
             h["by_binding"][st["b"]] = h["by_binding"].get(st["b"], 0) + 1
+            if "asl" in st:
+                k = "".join("e" if x["enc"] else "p" for x in st["asl"]) or "-"
+                h["assertion_lists"][k] = h["assertion_lists"].get(k, 0) + 1
+                if so["identity"]:
+                    h["assertion_lists_accepted"][k] = h["assertion_lists_accepted"].get(k, 0) + 1
+                h["messages_with_several_assertions"] += 1 if len(st["asl"]) > 1 else 0
+                h["encrypted"] += 1 if any(x["enc"] for x in st["asl"]) else 0
+                h["identity" if so["identity"] else "rejected"] += 1
+                if so["exc"]:
+                    h["exceptions"][so["exc"]] = h["exceptions"].get(so["exc"], 0) + 1
+                for g in [st["rs"]] + [x["as"] for x in st["asl"]]:
+                    if g:
+                        h["signing_keys"][g["k"]] = h["signing_keys"].get(g["k"], 0) + 1
+                        if g["c"]:
+                            h["corruptions"][g["c"]] = h["corruptions"].get(g["c"], 0) + 1
+                continue
             h["encrypted"] += 1 if st["enc"] else 0
             h["identity" if so["identity"] else "rejected"] += 1
             if so["exc"]:
